@@ -41,7 +41,7 @@ UNIT = dict(
                         (r"\bmut i\s*:\s*I\b", "mut i: It<T>"), (r"\bj\s*:\s*J\b", "j: It<T>")]),
         dict(key="StagesBuilder::find_conflict", file=STAGE, kind="fn", name="find_conflict", owner=SB, emit_owner="impl StagesBuilder",
              drop_generics=True, sig_rules=[(r"\bnew_reads\s*:\s*R\b", "new_reads: It<ResourceId>"), (r"\bnew_writes\s*:\s*W\b", "new_writes: It<ResourceId>")]),
-        dict(key="StagesBuilder::remove_ids", file=STAGE, kind="fn", name="remove_ids", owner=SB, emit_owner="impl StagesBuilder", sig_prefix=NOISO),
+        dict(key="StagesBuilder::remove_ids", file=STAGE, kind="fn", name="remove_ids", owner=SB, emit_owner="impl StagesBuilder", sig_prefix=NOISO + " #[verifier::allow_complex_invariants]"),
         dict(key="StagesBuilder::improves_balance", file=STAGE, kind="fn", name="improves_balance", owner=SB, emit_owner="impl StagesBuilder", sig_prefix=NOISO),
         dict(key="StagesBuilder::insertion_target", file=STAGE, kind="fn", name="insertion_target", owner=SB, emit_owner="impl StagesBuilder",
              drop_generics=True, sig_prefix=NOISO + " #[verifier::allow_complex_invariants]",
